@@ -192,12 +192,13 @@ CHECKS["C16"] = {
     "bounds": {"quick": {"layout": "1..3 tracks of {video, MPEG-4 audio, Opus} with the video codec H264 / H265 / VP9 / AV1 (one run each), name/language/default set or not, fMP4 and Low-Latency", "runs": "as C01 (K=4)", "bandwidth": "1..3 listed segments (+2 gaps), sizes in [1,2^30], durations in [0,2^36] ns"},
                "thorough": {"layout": "same", "runs": "as C01 thorough", "bandwidth": "1..4 segments"}},
     "assumptions": MUX_STUBS + ["RESOLUTION / FRAME-RATE compared against the stubbed SPS fields (1920x1080, 30 fps); natively against the real parser on the same SPS"],
-    "outside": ["exact RFC 6381 strings and RESOLUTION values of H265 / AV1 / VP9 (prefix and presence only; the strings are lemma.codecs' subject in C09)", "peak/mean equality for multi-stream muxers (the statement only claims it for single-stream ones)"],
+    "outside": ["exact RFC 6381 strings and RESOLUTION values of H265 / VP9 (prefix and presence only); AV1: exact string for arbitrary profile / level / tier / bit depth / monochrome / subsampling / colour description (cp, tc, mc in 0..22) by lemma.codecs.av1, except the sRGB triple and the optional fields of headers without a colour description (pinned to 01.01.01.0 by TestMarshal)", "peak/mean equality for multi-stream muxers (the statement only claims it for single-stream ones)"],
     "runs": [
         {"name": "run.mv.layout", "files": C16F, "fn": "VerifH_C16_layout", "workers": 16, "reach": ["accepted", "rejected", "end"]},
         {"name": "run.mv.layout.h265", "files": C16F, "fn": "VerifH_C16_layout", "workers": 16, "params": {"VCODEC": 1}, "reach": ["accepted", "rejected", "end"]},
         {"name": "run.mv.layout.vp9", "files": C16F, "fn": "VerifH_C16_layout", "workers": 16, "params": {"VCODEC": 2}, "reach": ["accepted", "rejected", "end"]},
         {"name": "run.mv.layout.av1", "files": C16F, "fn": "VerifH_C16_layout", "workers": 16, "params": {"VCODEC": 3}, "reach": ["accepted", "rejected", "end"]},
+        {"name": "lemma.codecs.av1", "files": [G + "c16_av1.go"] + C16F, "fn": "VerifH_C16_av1codecs", "workers": 16, "reach": ["marshalled", "end"]},
         {"name": "lemma.bandwidth", "files": C16F, "fn": "VerifH_C16_bandwidth", "workers": 8, "params_quick": {"N": 3}, "params_thorough": {"N": 4}, "qtimeout": 60000, "reach": ["computed"]},
     ] + mux_runs(),
 }
@@ -295,8 +296,9 @@ CHECKS["C12"] = {
                          "OnTracks": "succeeds or returns an error", "Close": "not called, or called (twice) after a symbolic number of scheduling steps", "preemptions": 1},
                "thorough": {"preemptions": 2}},
     "assumptions": CHECKS["C10"]["assumptions"] + ["net/http replaced by a scripted responder (goroutines inside net/http are outside the model)", "cooperative scheduler + bounded symbolic preemption at synchronisation points"],
-    "outside": ["MPEG-TS processors", "live playlists and pacing sleeps (time.After fires immediately)", "goroutines inside net/http"],
-    "runs": [c12run("conc.client.media", 0, 1, 2), c12run("conc.client.multivariant", 1, 1, 2)],
+    "outside": ["MPEG-TS processors beyond the back-pressure run", "live playlists in the whole-client runs (the Low-Latency downloader loop has its own run) and pacing sleeps (time.After fires immediately)", "goroutines inside net/http"],
+    "runs": [c12run("conc.client.media", 0, 1, 2), c12run("conc.client.multivariant", 1, 1, 2),
+             {"name": "conc.client.lowlatency", "files": [G + "c11_fetch.go"] + C12F, "fn": "VerifH_C12_lowlatency", "workers": 8, "reach": ["stalled", "end"], "replay_timeout": 120}],
 }
 
 C09F = [G + "c09_cosim.go", G + "c12_client.go"] + CLIP + [G + "mux_stub_findcompat.go"]
@@ -369,6 +371,10 @@ TSRUN = {"name": "run.cli.ts", "files": CLITS, "fn": "VerifH_C10_ts", "workers":
 CHECKS["C10"]["runs"] = CHECKS["C10"]["runs"] + [TSRUN]
 CHECKS["C09"]["runs"] = CHECKS["C09"]["runs"] + [dict(TSRUN, name="client.ts.times", prop="C10")]  # the client half of C09 (assertions carry C10's label)
 CHECKS["C12"]["runs"] = CHECKS["C12"]["runs"] + [{"name": "conc.ts.backpressure", "files": CLITS, "fn": "VerifH_C12_tsBackpressure", "workers": 4, "reach": ["backpressure", "end"], "replay_timeout": 120}]
+CHECKS["C13"]["runs"] = CHECKS["C13"]["runs"] + [dict(TSRUN, name="run.cli.ts.unexpected", params={"UNEXPECTED": 1}, params_quick={"MAXSEGS": 2, "MAXV": 1, "MAXA": 2}, params_thorough={"MAXSEGS": 2, "MAXV": 2, "MAXA": 2})]
+CHECKS["C13"]["bounds"]["quick"]["mpeg-ts"] = "first segment with audio before the first video unit or without video data, 1..2 segments, symbolic 33-bit timestamps"
+CHECKS["C13"]["outside"] = ["truncation inside mediacommon's parsers", "MPEG-TS payloads other than unexpected sample order / missing leading-track data",
+                            "busy-loop freedom beyond: every loop iteration consumes a queue element or blocks (engine deadlock / step bound)"]
 CHECKS["C10"]["outside"] = ["MPEG-TS demuxing itself (mpegts.Reader is the boundary; TimeDecoder is interpreted)", "rendition playlists processed by a second stream processor", "byte-range addressing (C11)",
                             "AbsoluteTime of non-leading MPEG-TS units that precede their segment's first leading unit in file order (the client anchors them through the previous segment's date-time, exact only for a gap-free wall clock)"]
 
